@@ -239,10 +239,19 @@ static void run_basic(void)
 /* second server: a scripted transfer (frames fixed in advance) interleaved at every position of the primary one */
 static uint8_t SEC[8][8]; static int NSEC, sec_pos[8], sec_sent;
 static int sec_srv = 1;        /* pkind bit 1: roles swapped - the long transfer runs on server 1, the scripted one on server 0 */
-static void sec_hook(int i) { while (sec_sent < NSEC && sec_pos[sec_sent] <= i) { sdo_request(sec_srv, SEC[sec_sent]); mc_steps++; sec_sent++; } }
+static int sec_api;            /* secondary kind 3: no transfer - the application switches server 1 off through 1201h:1 while the primary transfer runs on server 0 */
+static void sec_hook(int i)
+{
+    while (sec_sent < NSEC && sec_pos[sec_sent] <= i) {
+        if (sec_api) { if (CODictWrLong(&Node.Dict, CO_DEV(0x1201, 1), 0x800006C1u) == CO_ERR_NONE) sdo_srv_off[1] = 1; }
+        else sdo_request(sec_srv, SEC[sec_sent]);
+        mc_steps++; sec_sent++;
+    }
+}
 static void make_secondary(int kind)
 {
-    NSEC = 0; memset(SEC, 0, sizeof SEC);
+    NSEC = 0; memset(SEC, 0, sizeof SEC); sec_api = 0;
+    if (kind == 3) { sec_api = 1; NSEC = 1; return; }
     if (kind == 0) { cl_req(SEC[0], 0x23, 0x2002, 0); w_put32(SEC[0] + 4, 0xCAFEF00D); NSEC = 1; }
     else if (kind == 1) {                               /* segmented download of 10 bytes to 2011h */
         cl_req(SEC[0], 0x21, 0x2011, 0); w_put32(SEC[0] + 4, 10);
@@ -270,6 +279,7 @@ static void two_server_case(int pkind, uint32_t S, int skind, const int *pos)
     cl_hook = 0;
     if (r != CL_OK) mc_fail("c02-refused", "two servers: primary transfer (kind %d, %u bytes) not confirmed: %s %08X", pkind, S, r == CL_PROTOCOL ? cl_err : "abort", cl_abort);
     else if (memcmp(DomB, PAY, S)) mc_fail("c02-wrong-bytes", "two servers: primary object differs from the payload");
+    else if (skind == 3) { if (!sdo_srv_off[1]) mc_fail("c02-protocol", "two servers: the application could not switch server 1 off"); }
     else if (skind == 0 ? V32 != 0xCAFEF00D : memcmp(DomA, PAY + 100, 10) != 0) mc_fail("c02-wrong-bytes", "two servers: the object written through the second server differs from its payload");
     if (SM[sec_srv].st != S_IDLE) mc_fail("c02-protocol", "two servers: secondary transfer not completed");
     snprintf(smp, sizeof smp, "two servers: primary %s %u bytes on server %d, secondary kind %d at positions %d,%d,%d,%d", pkind ? "blk" : "seg", S, psrv, skind, pos[0], pos[1], pos[2], pos[3]);
@@ -283,8 +293,9 @@ static void run_two(int tier)
         uint32_t S = si == 0 ? 10 : si == 1 ? 21 : (tier ? 1000 : 900);
         if (pk >= 2 && si < 2 && !tier) continue;              /* swapped roles: the long transfers in quick, all in thorough */
         int P = pkind == 0 ? 1 + (int)((S + 6) / 7) : 2 + (int)((S + 6) / 7) + (int)((S + 6) / 7 + 126) / 127;
-        for (int skind = 0; skind < 3; skind++) {
-            int Q = skind == 0 ? 1 : skind == 1 ? 3 : 4, pos[4] = { 0, 0, 0, 0 };
+        for (int skind = 0; skind < 4; skind++) {
+            int Q = skind == 0 || skind == 3 ? 1 : skind == 1 ? 3 : 4, pos[4] = { 0, 0, 0, 0 };
+            if (skind == 3 && pk >= 2) continue;                /* 1200h:1 of server 0 is a constant: only server 1 can be switched off */
             if (S > 100 && skind > 0 && !tier) {
                 /* long primary: the whole secondary transfer inserted at every single position */
                 for (int p = 0; p <= P && !mc_deadline_hit(); p++) { pos[0] = pos[1] = pos[2] = pos[3] = p; mc_case(8, 2, pk, (int)S, skind, pos[0], pos[1], pos[2], pos[3]); two_server_case(pk, S, skind, pos); }
